@@ -254,40 +254,30 @@ Proof.
   unfold lebP. rewrite pleb_shift. apply Hall, Hz.
 Qed.
 
-Lemma zmin_list_bounds l mn m :
-  Forall (fun x => mn <= x) l -> zmin_list (l ++ [mn]) = Some m -> m = mn.
-Proof.
-  intros H E. apply zmin_list_spec in E as [Hin Hall]. rewrite Forall_forall in *.
-  assert (m <= mn) by (apply Hall, in_or_app; right; left; reflexivity).
-  apply in_app_or in Hin as [Hin|[<-|[]]]; [|reflexivity]. specialize (H m Hin). lia.
-Qed.
-Lemma zmax_list_bounds l mx m :
-  Forall (fun x => x <= mx) l -> zmax_list (l ++ [mx]) = Some m -> m = mx.
-Proof.
-  intros H E. apply zmax_list_spec in E as [Hin Hall]. rewrite Forall_forall in *.
-  assert (mx <= m) by (apply Hall, in_or_app; right; left; reflexivity).
-  apply in_app_or in Hin as [Hin|[<-|[]]]; [|reflexivity]. specialize (H m Hin). lia.
-Qed.
-
 Lemma new_ptier_ok name l mn mx :
   StronglySorted (lebP pleb) l -> Forall (fun p => stripped (plabel p)) l ->
-  Forall (fun p => mn <= ptime p <= mx) l ->
+  Forall (fun p => mn <= ptime p <= mx) l -> mn <= mx ->
   new_ptier name l (Some mn) (Some mx) = Ok (mkPT name l mn mx).
 Proof.
-  intros Hs Hl Hb. unfold new_ptier. rewrite (homog_p_id l Hs Hl). simpl opt_list.
-  destruct (zmin_list_app_some (map ptime l) mn) as (a & Ea).
-  destruct (zmax_list_app_some (map ptime l) mx) as (b & Eb). rewrite Ea, Eb.
-  apply zmin_list_bounds in Ea; [|rewrite Forall_forall in *; intros x Hx;
-    apply in_map_iff in Hx as (p & <- & Hp); apply Hb, Hp].
-  apply zmax_list_bounds in Eb; [|rewrite Forall_forall in *; intros x Hx;
-    apply in_map_iff in Hx as (p & <- & Hp); apply Hb, Hp].
-  now subst.
+  intros Hs Hl Hb Hmm. unfold new_ptier. rewrite (homog_p_id l Hs Hl). simpl opt_list.
+  set (all := map ptime l ++ [mn] ++ [mx]).
+  assert (In mn all) as Imn by (unfold all; apply in_or_app; right; left; reflexivity).
+  assert (In mx all) as Imx by (unfold all; apply in_or_app; right; right; left; reflexivity).
+  assert (forall x, In x all -> mn <= x <= mx) as Hall.
+  { intros x Hx. unfold all in Hx. apply in_app_or in Hx as [Hx|[<-|[<-|[]]]]; try lia.
+    apply in_map_iff in Hx as (p & <- & Hp). rewrite Forall_forall in Hb. apply Hb, Hp. }
+  destruct (zmin_list all) as [a|] eqn:Ea; [|destruct all; [destruct Imn|discriminate]].
+  destruct (zmax_list all) as [b|] eqn:Eb; [|destruct all; [destruct Imn|discriminate]].
+  apply zmin_list_spec in Ea as [A1 A2]. apply zmax_list_spec in Eb as [B1 B2].
+  rewrite Forall_forall in A2, B2.
+  pose proof (A2 mn Imn). pose proof (B2 mx Imx). pose proof (Hall a A1). pose proof (Hall b B1).
+  f_equal. f_equal; lia.
 Qed.
 
 Theorem crop_p_spec_ok t a b rebase :
   wf_ptier_strict t -> crop_p t a b rebase = crop_p_spec t a b rebase.
 Proof.
-  intros [Hs Hl]. unfold crop_p, crop_p_spec. destruct (b <=? a); [reflexivity|].
+  intros [Hs Hl]. unfold crop_p, crop_p_spec. destruct (Z.leb_spec b a); [reflexivity|].
   set (l := filter (in_windowb a b) (pents t)).
   assert (StronglySorted (lebP pleb) l) as Hsl by (apply pleb_sorted_filter, Hs).
   assert (Forall (fun p => stripped (plabel p)) l) as Hll.
@@ -295,11 +285,11 @@ Proof.
   assert (Forall (fun p => a <= ptime p <= b) l) as Hbl.
   { apply Forall_forall. intros p Hp. apply filter_In in Hp as [_ Hp]. unfold in_windowb in Hp. lia. }
   destruct rebase.
-  - apply new_ptier_ok; [apply pleb_sorted_shift, Hsl| |].
+  - apply new_ptier_ok; [apply pleb_sorted_shift, Hsl| | |lia].
     + rewrite Forall_forall in *. intros p Hp. apply in_map_iff in Hp as (q & <- & Hq). simpl. auto.
     + rewrite Forall_forall in *. intros p Hp. apply in_map_iff in Hp as (q & <- & Hq).
       specialize (Hbl q Hq). simpl. lia.
-  - apply new_ptier_ok; assumption.
+  - apply new_ptier_ok; [assumption|assumption|assumption|lia].
 Qed.
 
 Theorem crop_p_members t a b p :
